@@ -62,6 +62,11 @@ Proof.
 Qed.
 Print Assumptions encodeCashAddress_tie.
 
+Lemma len20 (h : list N) : negb (Z.of_nat (length h) =? 20)%Z = negb (length h =? ripemd160_size)%nat.
+Proof. change ripemd160_size with 20%nat. f_equal. destruct (Nat.eqb_spec (length h) 20); lia. Qed.
+Lemma len32 (h : list N) : negb (Z.of_nat (length h) =? 32)%Z = negb (length h =? sha256_size)%nat.
+Proof. change sha256_size with 32%nat. f_equal. destruct (Nat.eqb_spec (length h) 32); lia. Qed.
+
 Section AddrTie.
 Variable ripemd160 : list N -> list N.
 Variable P : Type.
@@ -71,10 +76,6 @@ Variable ec_ser : N -> P -> list N.
 (* ---------- constructors: every error of the model (class 10) is error site 1 ---------- *)
 Definition code1 (_ : N) : N := 1.
 
-Lemma len20 (h : list N) : negb (Z.of_nat (length h) =? 20)%Z = negb (length h =? ripemd160_size)%nat.
-Proof. change ripemd160_size with 20%nat. f_equal. destruct (Nat.eqb_spec (length h) 20); lia. Qed.
-Lemma len32 (h : list N) : negb (Z.of_nat (length h) =? 32)%Z = negb (length h =? sha256_size)%nat.
-Proof. change sha256_size with 32%nat. f_equal. destruct (Nat.eqb_spec (length h) 32); lia. Qed.
 
 Ltac ctor n :=
   intros; cbv beta delta [Kernels3.newAddressPubKeyHash Kernels3.newAddressScriptHashFromHash
@@ -129,14 +130,6 @@ Theorem NewSlpAddressScriptHash32FromHash_tie n h :
 Proof.
   unfold Kernels3.NewSlpAddressScriptHash32FromHash. rewrite newAddressScriptHash32FromHash_tie. unfold new_sh32.
   destruct (length h =? sha256_size)%nat; reflexivity.
-Qed.
-
-(* a nil *chaincfg.Params is dereferenced only after the length check *)
-Theorem newAddressPubKeyHash_nil h :
-  Kernels3.newAddressPubKeyHash h None = if (length h =? 20)%nat then Panic 5 else Ok (None, 1).
-Proof.
-  unfold Kernels3.newAddressPubKeyHash.
-  destruct (Nat.eqb_spec (length h) 20); destruct (Z.eqb_spec (Z.of_nat (length h)) 20); try lia; reflexivity.
 Qed.
 
 (* the pointer a constructor returns, converted to the interface Address, is the image of the model's address *)
@@ -329,6 +322,15 @@ Proof.
 Qed.
 
 End AddrTie.
+
+(* a nil *chaincfg.Params is dereferenced only after the length check *)
+Theorem newAddressPubKeyHash_nil h :
+  Kernels3.newAddressPubKeyHash h None = if (length h =? 20)%nat then Panic 5 else Ok (None, 1).
+Proof.
+  unfold Kernels3.newAddressPubKeyHash.
+  destruct (Nat.eqb_spec (length h) 20); destruct (Z.eqb_spec (Z.of_nat (length h)) 20); try lia; reflexivity.
+Qed.
+
 
 Print Assumptions newAddressPubKeyHash_tie.
 Print Assumptions newAddressScriptHashFromHash_tie.
